@@ -10,7 +10,11 @@ From ZI Require Import Model.Ro Model.Super.
 Inductive Contributes (E : env) (d : decls) : cls -> cls -> Prop :=
 | Contributes_self : forall c, Contributes E d c c
 | Contributes_base : forall c b c',
-    inherit d c = true -> In b (bases (e_cg E) c) -> Contributes E d b c' -> Contributes E d c c'.
+    inherit d c = true -> In b (bases (e_cg E) c) -> Contributes E d b c' -> Contributes E d c c'
+(* ... or a class whose specification [c] declared (classImplements(c, implementedBy(b))), whether or
+   not [c] still inherits *)
+| Contributes_spec : forall c b c',
+    In b (dspecs d c) -> Contributes E d b c' -> Contributes E d c c'.
 
 (* the specification of class [x] hears about a change of the specification of class [c]:
    [x] is [c], or [x] hears about a class [y] that lists [c] in __bases__ and still inherits *)
@@ -18,7 +22,14 @@ Inductive Hears (E : env) (d : decls) : cls -> cls -> Prop :=
 | Hears_self : forall c, Hears E d c c
 | Hears_sub : forall x y c,
     In y (map fst (e_cg E)) -> inherit d y = true -> In c (bases (e_cg E) y) ->
-    Hears E d x y -> Hears E d x c.
+    Hears E d x y -> Hears E d x c
+(* ... or that declared the specification of [c] itself *)
+| Hears_decl : forall x y c,
+    In y (map fst (e_cg E)) -> In c (dspecs d y) -> Hears E d x y -> Hears E d x c.
+
+(* declared class specifications point to classes created earlier (no cycle) inside the world *)
+Definition specs_ok (E : env) (d : decls) : Prop :=
+  forall c b, In b (dspecs d c) -> b < c /\ c < length (e_cg E).
 
 (* the classes strictly after the first occurrence of [C] *)
 Fixpoint rest_after (C : cls) (l : list cls) : list cls :=
